@@ -7,7 +7,7 @@ for id in $(ls seeded); do
     d=seeded/$id/$m
     [ -f "$d/patch.diff" ] || continue
     rm -rf replays/$id
-    r=$(tools/selftest.sh $id $d/patch.diff $tier 2>&1 | grep -E "^(CAUGHT|MISSED|patch does not apply|repo dirty)" | tail -1)
+    r=$(tools/selftest.sh $id $d/patch.diff $tier 2>&1 | grep -aE "^(CAUGHT|MISSED|patch does not apply|repo dirty)" | tail -1)
     first=$(ls replays/$id 2>/dev/null | head -2 | tr '\n' ' ')
     echo "seeded $id $m: $r [$first]"
   done
